@@ -234,7 +234,8 @@ class Call:
         else:
             if set(levels) != set(data):
                 raise ValueError("The levels beign assigned and the levels in the data differ")
-            categories = levels
+            # The design keeps its own copy: the caller may go on modifying the list it passed
+            categories = list(levels)
 
         dtype = pd.api.types.CategoricalDtype(categories=categories, ordered=True)
         data = pd.Categorical(data).astype(dtype)
